@@ -68,7 +68,7 @@ TRUSTED = [
     'and no `..` crosses a missing directory (inputs with `..` are checked by the oracle only)',
     'os.walk order of a source directory is recorded by the harness and given to the model',
     'domain: names without newline, without Unicode white space; file destinations without trailing slash; '
-    'symlinks only as leaves, and a destination that is a symlink is not shared with a second install rule; '
+    'symlinks only as leaves; '
     'chown/strip/rpath/install scripts/SELinux/stamp files not exercised',
 ]
 
@@ -850,9 +850,7 @@ def gen_case(rng: random.Random, idx: int, kind: str) -> dict:
                 ip = d
                 dst = jn(ip, os.path.basename(src))
             else:
-                # link sources keep their (unique) name: a destination symlink shared with another rule would be
-                # written *through* by the other rule (outside the model's domain, see TRUSTED)
-                name = rng.choice(FILEN) if rng.random() < 0.5 and not linksrc else os.path.basename(src)
+                name = rng.choice(FILEN) if rng.random() < 0.5 else os.path.basename(src)
                 ip = jn(d, name)
                 dst = ip
             if not fresh_dst(dst):
@@ -1126,7 +1124,23 @@ def unit_stream(ctx: Ctx) -> None:
         lines.append(f'join {enc(a)}|{enc(b)}'); want.append(enc(posixpath.join(a, b)))
         lines.append(f'djoin {enc(a)}|{enc(b)}'); want.append(enc(destdir_join(a, b)))
         c = rng.choice(pool)
-        lines.append(f'gdp {enc(a)}|{enc(b)}|{enc(c)}'); want.append(enc(minstall.get_destdir_path(a, b, c)))
+        try:
+            w = enc(minstall.get_destdir_path(a, b, c))
+        except MesonException:
+            w = 'ERR:Meson'
+        lines.append(f'gdp {enc(a)}|{enc(b)}|{enc(c)}'); want.append(w)
+        if rng.random() < 0.3:
+            # the staging check on realistic shapes: DESTDIR d, prefix under it, install dirs with `..`
+            d = rng.choice(['/d', '/d/e', '//d', '/d/', '/d/./e', 'd', '/'])
+            fp = destdir_join(d, rng.choice(['/usr', '/', '/usr/local', '//p']))
+            ip = '/'.join(rng.choice(['..', '..', 'a', 'b', '.', '']) for _ in range(rng.randint(1, 5)))
+            if rng.random() < 0.3:
+                ip = '/' + ip
+            try:
+                w = enc(minstall.get_destdir_path(d, fp, ip))
+            except MesonException:
+                w = 'ERR:Meson'
+            lines.append(f'gdp {enc(d)}|{enc(fp)}|{enc(ip)}'); want.append(w)
     # permission strings: every well-formed one, and damaged ones
     pos = ['r-', 'w-', 'xsS-', 'r-', 'w-', 'xsS-', 'r-', 'w-', 'xtT-']
     perms = [''.join(t) for t in itertools.product(*pos)]
@@ -1218,8 +1232,8 @@ def judge(ctx: Ctx, results: T.List[T.Tuple[dict, dict, str]]) -> None:
             ctx.tag('op:' + st['op']['op'] + (':dry' if st['op'].get('dry') else '') + (':only-changed' if st['op'].get('only') else ''))
             ctx.tag('impl-result:' + st['err'])
         oracle_case(ctx, spec, R, res)
-        if has_dotdot(spec):
-            continue   # outside the model's validated domain (see TRUSTED); oracle only
+        if has_dotdot(spec) and not spec['name'].startswith('corpus'):
+            continue   # `..` that stays inside DESTDIR: makedirs is physical, the model lexical (see TRUSTED); oracle only
         for r in res['requests']:
             reqs.append(r)
             owners.append(i)
